@@ -80,6 +80,7 @@ GenNext ==
           \/ SendDrainTake(r) /\ Log("SendDrainTake", "S", r)
           \/ SendDrainAnswer(r) /\ Log("SendDrainAnswer", "S", r)
      \/ WriterSelect /\ Log("WriterSelect", "W", "")
+     \/ WriterFiltered /\ Log("WriterFiltered", "W", "")
      \/ WriterEncode /\ Log("WriterEncode", "W", "")
      \/ WriterHandoff /\ Log("WriterHandoff", "W", "")
      \/ BackendReply /\ LogEnv("BackendReply", "", "R")
